@@ -201,6 +201,18 @@ PROPS["C12"] = {
     "trusted_base": TB_COMMON + ["url/reqwest/hyper request construction (captured request line compared with the model)", "verif-hooks: PASSAGE_VERIF_SESSION_BASE replaces scheme+authority only"],
     "assumptions": ["the session server parses the query as application/x-www-form-urlencoded"],
 }
+PROPS["C19"] = {
+    "runner": "c19",
+    "design_ref": "DESIGN.md §6 C19",
+    "technique": "Lean 4 theorems over an abstract IP type with printer/parser: Target -> wire -> Target round trip, acceptance iff (address present, host parses, port <= 65535), malformed => error, metadata map = last entry per key, request faithfulness; differential runs of the real gRPC adapters against an in-process tonic mock generated from the repository's .proto files",
+    "level_text": "Machine-checked proofs for every IP type whose parser inverts its printer: fromWire (toWire t) = t (identifier, IPv4/IPv6 address, port, metadata); a wire target converts exactly when its address is present, its host is an IP address and its port fits 16 bits, and then carries the reply's own values; anything else is an error; the Select request carries toWire of every candidate in order and the player, uuid, client and server addresses unchanged; a candidate echoed by the service comes back identical. The real GrpcDiscoveryAdapter/GrpcStrategyAdapter are run against a tonic mock (requests captured, replies scripted) on targets in every textual IP form, every port class, duplicate/empty metadata and malformed replies.",
+    "level_note": "Trusted: Lean kernel; std::net IpAddr Display/FromStr round trip is a recorded hypothesis (verdicts recorded per host string and handed to the model); tonic/prost transport; HashMap iteration order canonicalised by sorting.",
+    "lean_modules": ["Passage.Props.C19"],
+    "cases": {"quick": 1200, "thorough": 40000},
+    "rule": "discovery replies of 0..4 targets with IPv4/IPv6 hosts in compressed, full, mapped, upper-case, loopback, unspecified forms, ports 0/1/25565/65535, metadata with duplicates and empty strings, one malformed entry in a third of the replies (missing address, non-IP host incl. bracketed and zone forms, port > 65535); strategy calls with 0..4 candidates, replies: echo of a candidate, none, foreign or malformed target, service error; non-trivial = every call with at least one target; distinct = distinct request lines",
+    "trusted_base": TB_COMMON + ["std::net IP text round trip (recorded hypothesis)", "tonic/prost encode-decode of the messages"],
+    "assumptions": ["parseIp (showIp a) = some a"],
+}
 
 # properties not claimed yet (kept current; the reason is the honest status)
 NOT_YET = {f"C{i:02d}": "check not built yet in this round (planned per DESIGN.md §9); no claim is made until its check runs green" for i in range(1, 21)}
